@@ -297,6 +297,7 @@ def generate_ising(
 
     agents = {}
     fg_mapping = defaultdict(lambda: [])
+    hosted_constraints = set()
     var_mapping = defaultdict(lambda: [])
     for (row, col) in grid_graph.nodes:
         agent = AgentDef(f"a_{row}_{col}")
@@ -312,10 +313,18 @@ def generate_ising(
             fg_mapping[agent.name].append(f"cu_v_{row}_{col}")
             # Sort coordinate to make sure we build the name in the same order as when
             # creating the constraints:
+            # With only two rows (or columns) the left and right (up and down)
+            # neighbors are the same node: host each constraint only once.
             (r1, c1), (r2, c2) = sorted([(row, col), (left, col)])
-            fg_mapping[agent.name].append(f"cb_v_{r1}_{c1}_v_{r2}_{c2}")
+            left_constraint = f"cb_v_{r1}_{c1}_v_{r2}_{c2}"
+            if left_constraint not in hosted_constraints:
+                hosted_constraints.add(left_constraint)
+                fg_mapping[agent.name].append(left_constraint)
             (r1, c1), (r2, c2) = sorted([(row, col), (row, down)])
-            fg_mapping[agent.name].append(f"cb_v_{r1}_{c1}_v_{r2}_{c2}")
+            down_constraint = f"cb_v_{r1}_{c1}_v_{r2}_{c2}"
+            if down_constraint not in hosted_constraints:
+                hosted_constraints.add(down_constraint)
+                fg_mapping[agent.name].append(down_constraint)
 
     name = f"Ising_{row_count}_{col_count}_{bin_range}_{un_range}"
     if no_agents:
